@@ -13,7 +13,21 @@ from fractions import Fraction
 from functools import lru_cache
 from math import comb
 
-sys.setrecursionlimit(100000)
+import contextlib
+
+
+@contextlib.contextmanager
+def deep():
+    """Raise the recursion limit only while an ORACLE recursion runs, and restore it: the library
+    under test must always run under the interpreter's default limit (a seeded change - and a real
+    defect - can hinge on sys.getrecursionlimit())."""
+    old = sys.getrecursionlimit()
+    sys.setrecursionlimit(max(old, 100000))
+    try:
+        yield
+    finally:
+        sys.setrecursionlimit(old)
+
 INF = float("inf")
 
 
@@ -175,8 +189,13 @@ def period_closed_form(cm, uf, wd, rd):
 # dynamic programs (validated against the searches inside each run)
 # ---------------------------------------------------------------------------
 
-@lru_cache(None)
 def dp_binomial(n, s):
+    with deep():
+        return _dp_binomial(n, s)
+
+
+@lru_cache(None)
+def _dp_binomial(n, s):
     """Total forward steps, s restart checkpoints, written from the problem
     statement: checkpoint the start (uses one unit), advance j, recurse."""
     if n == 1:
@@ -186,11 +205,16 @@ def dp_binomial(n, s):
         return INF
     if s == 1:
         return n * (n + 1) // 2
-    return min(j + dp_binomial(n - j, s - 1) + dp_binomial(j, s) for j in range(1, n))
+    return min(j + _dp_binomial(n - j, s - 1) + _dp_binomial(j, s) for j in range(1, n))
+
+
+def dp_mixed(n, s):
+    with deep():
+        return _dp_mixed(n, s)
 
 
 @lru_cache(None)
-def dp_mixed(n, s):
+def _dp_mixed(n, s):
     """Total forward steps when each unit holds a restart checkpoint or one
     step's adjoint data; no checkpoint held at the start."""
     if n <= 0:
@@ -200,12 +224,12 @@ def dp_mixed(n, s):
         return n            # every step's adjoint data fits: one sweep
     if s < 1:
         return INF
-    best = 1 + dp_mixed(n - 1, s - 1)                       # store adjoint data of step 0
+    best = 1 + _dp_mixed(n - 1, s - 1)                      # store adjoint data of step 0
     if s == 1:
         # one unit: restart checkpoint at 0, advance n-1 ... ; last two steps share the unit
         return min(best, n * (n + 1) // 2 - 1)
     for i in range(2, n):
-        best = min(best, i + dp_mixed(i, s) + dp_mixed(n - i, s - 1))
+        best = min(best, i + _dp_mixed(i, s) + _dp_mixed(n - i, s - 1))
     return best
 
 
@@ -277,10 +301,12 @@ class HierDP:
         return min(self.A0(L, self.c0), self.wd + self.B1(L, m))
 
     def hopt(self, n):
-        return self.A1(n, self.c1)
+        with deep():
+            return self.A1(n, self.c1)
 
     def ropt(self, n):
-        return self.A0(n, self.c0)
+        with deep():
+            return self.A0(n, self.c0)
 
     def _D(self, L):               # Disk-Revolve: unbounded disk, each disk checkpoint read once
         best = self.A0(L, self.c0)
@@ -289,7 +315,8 @@ class HierDP:
         return best
 
     def dopt(self, n):
-        return self.D(n)
+        with deep():
+            return self.D(n)
 
 
 def stream_cost(c8, n, fsteps, dwrites, dreads):
